@@ -28,6 +28,9 @@ type body struct {
 	remainingContentLength int64
 	violatedContentLength  bool
 	hasContentLength       bool
+	// noContent: the message carries no content whatever its Content-Length says
+	// (response to a HEAD request, 304 response)
+	noContent bool
 }
 
 func newBody(str *Stream, contentLength int64) *body {
@@ -67,6 +70,15 @@ func (r *body) Read(b []byte) (int, error) {
 	r.remainingContentLength -= int64(n)
 	if err := r.checkContentLengthViolation(); err != nil {
 		return n, err
+	}
+	// The stream ended before the declared Content-Length was reached: the message is malformed,
+	// see section 4.1.2 of RFC 9114. Don't report a clean EOF for a truncated body.
+	if err == io.EOF && r.hasContentLength && r.remainingContentLength > 0 && !r.noContent {
+		if !r.violatedContentLength {
+			r.str.CancelWrite(quic.StreamErrorCode(ErrCodeMessageError))
+			r.violatedContentLength = true
+		}
+		return n, io.ErrUnexpectedEOF
 	}
 	return n, maybeReplaceError(err)
 }
